@@ -261,3 +261,9 @@ def run(F, rep):
                 rep.check(is_ptr, 'C11.D3', '%s::clone|%s' % (cls, render(c)[:50]), cf.where(c), '%s::clone sets %s of the copy from `%s` (%s), not from an entity: the content of the original\'s %s is not copied' % (cls, sorted(hit), render(a0)[:40], t0[:40] or 'not a pointer', sorted(hit)), 'entity argument')
     if n_d3 < 3:
         raise AnalysisBroken('C11.D3: only %d entity-member writes on the copy (5 confirmed)' % n_d3)
+
+    # ------------------------------------------------------------------ W: walks over the component tree are complete
+    import recursion as _recw
+    _recw.rule_walkers(F, rep, 'C11.W1', ['clone', 'fixComponentUnits', 'generateEquivalenceMap'], 3, 'copying components, their units links and equivalences')
+
+
